@@ -85,7 +85,7 @@ SPECS["C06"] = {
                    "value, empty strings allowed), a symbolic metric type and a symbolic shard count. Asserted: one output map per shard; each input "
                    "series occurs in exactly one of them with an unchanged payload; the sizes add up (no foreign series); and the shard index of a series "
                    "is the same in a second, different batch that shares only that series (determinism: the index is a function of the series identity "
-                   "and the shard count only). The hash itself is not pinned to adler32.",
+                   "and the shard count only). The hash itself is not pinned to adler32. DISPATCH: the real BackendHandler.DispatchMetricMap (workers not running) on a batch of 1..3 counter series with symbolic names and tag sets for 1..4 workers: every series reaches exactly one worker queue, the one it reaches when dispatched alone, empty shards are not queued, nothing else arrives.",
     "bounds": {"quick": "1..3 series, names <= 1 byte, tag keys <= 1 byte, shard counts 1..3; mixed types for 2 series",
                "thorough": "1..4 series, names <= 2 bytes, tag keys <= 2 bytes, shard counts 1..6; mixed types for 3 series"},
     "outside": ["maps with more than 4 series (the per-series argument does not depend on the batch size)", "queue hand-off to the worker of the same index (C01)"],
@@ -98,6 +98,8 @@ SPECS["C06"] = {
          "reach": {"*": ["split", "determinism"]},
          "twin": {"VerifC06_Twin": True},
          "limits": {"quick": {"timeout": "600s"}, "thorough": {"timeout": "3000s"}}},
+        {"pkg": "./pkg/statsd", "harness": "pkg/statsd", "mode": "math",
+         "entries": {"quick": ["VerifC06_Dispatch"]}, "reach": {"*": ["dispatched"]}, "limits": {"quick": {"timeout": "600s"}}},
     ],
 }
 
@@ -138,14 +140,14 @@ SPECS["C09"] = {
                    "value); it survives Reset iff expiry == 0 or now - ts <= the expiry of ITS type; survivors are zeroed/emptied (gauges untouched) and keep "
                    "timestamp, source, tags; an expired series leaves no empty name entry. Because the pre-state is arbitrary this covers histories of any "
                    "length. A history harness (real constructor, one datapoint of a symbolic type at T, three flushes at symbolic non-decreasing times) "
-                   "cross-checks 'reported exactly until and including the first flush more than the expiry after T'.",
+                   "cross-checks 'reported exactly until and including the first flush more than the expiry after T'. SIBLINGS: two series of one name (empty tag key and t:1) of a symbolic type with independent timestamps: after Flush + Reset each is kept or removed by its own timestamp.",
     "bounds": {"quick": "all int64 expiries x 4 types, all 0 <= ts <= now < 2^62; histories of 3 and 5 flushes, and of 4 flushes with a second datapoint arriving before a symbolic one of them (the expiry then counts from that datapoint; an expired series is created again)", "thorough": "adds histories of 8 flushes and of 6 flushes with a second datapoint"},
     "outside": ["timestamps at or beyond 2^62 (subtraction overflow)", "concurrent ReceiveMap during a flush (single-owner discipline, structural)"],
     "assumptions": STUBS_COMMON + [MATH_NOTE, TIME_MODEL],
     "jobs": [
         {"pkg": "./pkg/statsd", "harness": "pkg/statsd", "mode": "math",
-         "entries": {"quick": ["VerifC09_Step", "VerifC09_Hist", "VerifC09_Hist5", "VerifC09_HistResend", "VerifC09_Twin"],
-                     "thorough": ["VerifC09_Step", "VerifC09_Hist", "VerifC09_Hist5", "VerifC09_Hist8", "VerifC09_HistResend", "VerifC09_HistResend6", "VerifC09_Twin"]},
+         "entries": {"quick": ["VerifC09_Step", "VerifC09_Siblings", "VerifC09_Hist", "VerifC09_Hist5", "VerifC09_HistResend", "VerifC09_Twin"],
+                     "thorough": ["VerifC09_Step", "VerifC09_Siblings", "VerifC09_Hist", "VerifC09_Hist5", "VerifC09_Hist8", "VerifC09_HistResend", "VerifC09_HistResend6", "VerifC09_Twin"]},
          "reach": {"VerifC09_Step": ["counter-survives", "counter-expired"], "VerifC09_Hist": ["alive-after-3", "expired-in-history"]},
          "twin": {"VerifC09_Twin": True},
          "limits": {"quick": {"timeout": "600s"}, "thorough": {"timeout": "600s"}}},
@@ -407,16 +409,16 @@ SPECS["C14"] = {
                    "source, set member of symbolic ASCII bytes; any int64 counter, any float64 gauge/timer values and sampled count incl. NaN/Inf/-0, 0..2 timer values, 0..2 "
                    "set members; compression off/zlib/lz4) must be dispatched by the server exactly once, with the same keys, tags, sources, values (timestamps excepted), status "
                    "202, and a Content-Encoding header naming the compression. TWO SERIES: two series of one name (different tag sets and sources) for each of the four types with "
-                   "symbolic values and set members: each series keeps its own. EVENT: all fields symbolic. BAD BODY: unknown encodings and undecodable bodies under every known "
+                   "symbolic values and set members: each series keeps its own. RETRIED: the same round trip with up to three attempts that fail or not: a batch delivered on a retry still decodes to what was given. EVENT: all fields symbolic. BAD BODY: unknown encodings and undecodable bodies under every known "
                    "encoding are answered 4xx/5xx and dispatch nothing.",
     "bounds": {"quick": "one name, one tag, one source, strings of 1..2 ASCII bytes, <= 2 timer values / set members; two series per name", "thorough": "adds names, tags and sources of 3 symbolic ASCII bytes"},
     "outside": ["the byte-level protobuf wire format and the zlib/lz4 codecs (trusted inverse pairs; compression levels)", "corrupt COMPRESSED bodies (decoder behaviour)", "strings that are not valid UTF-8 (C15)"],
     "assumptions": STUBS_COMMON + [NET_STUBS, TIME_MODEL],
     "jobs": [
         {"pkg": "./pkg/statsd", "harness": "pkg/statsd", "mode": "machine",
-         "entries": {"quick": ["VerifC14_Metrics", "VerifC14_TwoSeries", "VerifC14_Event", "VerifC14_BadBody", "VerifC14_Twin"],
-                     "thorough": ["VerifC14_Metrics", "VerifC14_Metrics3", "VerifC14_TwoSeries", "VerifC14_Event", "VerifC14_BadBody", "VerifC14_Twin"]},
-         "reach": {"VerifC14_Metrics": ["decoded"], "VerifC14_Metrics3": ["decoded"], "VerifC14_TwoSeries": ["decoded"], "VerifC14_Event": ["event-decoded"], "VerifC14_BadBody": ["rejected"]},
+         "entries": {"quick": ["VerifC14_Metrics", "VerifC14_TwoSeries", "VerifC14_Retried", "VerifC14_Event", "VerifC14_BadBody", "VerifC14_Twin"],
+                     "thorough": ["VerifC14_Metrics", "VerifC14_Metrics3", "VerifC14_TwoSeries", "VerifC14_Retried", "VerifC14_Event", "VerifC14_BadBody", "VerifC14_Twin"]},
+         "reach": {"VerifC14_Metrics": ["decoded"], "VerifC14_Metrics3": ["decoded"], "VerifC14_TwoSeries": ["decoded"], "VerifC14_Retried": ["delivered-on-retry"], "VerifC14_Event": ["event-decoded"], "VerifC14_BadBody": ["rejected"]},
          "twin": {"VerifC14_Twin": True},
          "limits": {"quick": {"timeout": "600s"}, "thorough": {"timeout": "600s"}}},
     ],
